@@ -1,5 +1,6 @@
 """C10: a source that fails to build has no effect on anything submitted afterwards."""
 from .xsbase import *
+from . import enumprogs
 import os, re
 
 GOOD = ['1 2', '"s" 5', ': sq dup * ; 3 sq', '7 var keep', '[ 1 2 ] { 3 "k" }', '#( 9 const NINE #) NINE', '', '10 20 30 rot',
@@ -13,6 +14,9 @@ FAIL = ['foo', 'nosuchword', '0x', '1a', '"abc', '|fg|', 'then', 'loop', ';', ']
         # the failing token is inside text the source itself injected: the reader is then two lexers deep
         '#( 5 ! keep nosuchw #)', '#( 5 ! keep #) nosuchw', '#( 6 ! cnt 1 0 / #)', '#( twice #) nosuchw', '#( 5 ! keep',
         '#( "nosuchw" ~)', '#( "1 nosuchw 2" ~)', '#( "then" ~)', '#( "0x" ~)', '#( "#( nosuchw #)" ~)', '#( "#( \\"zz\\" ~)" ~)', '#( "1 0x" ~) 5']
+# a meta block closed while a structure opened inside it is still pending: the closer itself rejects the source
+META_OPEN_FAIL = ['#( 1 if #)', '#( 3 0 do ~)', '#( begin #)', '#( [ 1 #)', '#( 1 case #)', '#( 1 if 2 else #)', '#( "x" begin ~)', '#( 1 case 1 of #)',
+                  '#( #( 1 if #) #)', '#( { 1 ~)']
 TRAIL = ['', ' 2 3', ' : z 9 ;', ' ] then', ' 100 var late_var', ' #( 4 #)', ' "tail" print', ' drop drop', ' ; ]']
 OPEN_END = ['1 if', ': f 1', '#( 1', '[ 1', '{ 1 2', 'begin 1', '3 0 do', '1 case', ': f if 1 then', '#( [ 1 2', '^{ 1']
 PROBES = ['4', 'depth', '1 var x x', ': f 1 ; f', '[ 1 ]', '.s', '#( 2 3 + #)', 'K', 'q', 'z', 'h', 'a', 'g', '1 if 2 then', '3 0 do I loop',
@@ -32,13 +36,18 @@ class C10(XsProp):
     def generate(self, rng, tier):
         n = 900 if tier == 'quick' else 20000
         cs = []
-        for i in range(n):
+        combos = [(p_, f_) for f_ in META_OPEN_FAIL for p_ in PREFIX]
+        if tier == 'quick':
+            combos = rng.sample(combos, 150)
+        for i in range(n + len(combos)):
             goods = [rng.choice(GOOD) for _ in range(rng.choice([0, 1, 1, 2]))]
-            if rng.random() < 0.2:
+            if i >= n:
+                bad = ('%s %s%s' % (combos[i - n][0], combos[i - n][1], rng.choice(TRAIL))).strip()
+            elif rng.random() < 0.2:
                 bad = rng.choice(OPEN_END)
             else:
                 bad = (rng.choice(PREFIX) + ' ' + rng.choice(FAIL) + rng.choice(TRAIL)).strip()
-            if rng.random() < 0.15:
+            if i < n and rng.random() < 0.15:
                 bad = Gen(rng, bad=0).program(2) + ' ' + bad
             style = rng.choice(['eval', 'eval', 'compile'])
             probes = [rng.choice(PROBES) for _ in range(rng.randint(3, 6))]
@@ -47,6 +56,9 @@ class C10(XsProp):
                     ['clone', 'clone', 'use 2', 'compile %s' % hexsrc(bad), 'use 0',
                      '%s %s' % (style, hexsrc(bad)), 'out', pr, 'dump', 'use 1', pr, 'dump']
             cs.append(' | '.join(steps))
+        # sessions around `enum ... endenum` (plain, nested, unbalanced, failing with an open enum and then later sources, under limits,
+        # recording on): compared with the mirror model only (no clone, so the group predicate skips them)
+        cs += enumprogs.cases(rng, 150 if tier == 'quick' else 4000, thorough=(tier != 'quick'), errloc=False, findings=False)
         # recorded findings D30-D32 (witnesses; each must keep failing the way it is recorded)
         for goods, bad, probes in self.WITNESS:
             pr = ' | '.join('eval %s | stack | out' % hexsrc(p) for p in probes)
